@@ -1,7 +1,7 @@
 """Property registry: which contract modules serve which property, and what
 each claim leaves unverified (text copied into every evidence file)."""
 
-ALL_MODULES = ["contracts.c17", "contracts.c12", "contracts.c13"]
+ALL_MODULES = ["contracts.c17", "contracts.c12", "contracts.c13", "contracts.c18"]
 
 SPECS = {
     "C17": {
@@ -24,5 +24,12 @@ SPECS = {
         "level_note": "Trusted: the python attribute model of specs/pyheap.py (own dict + fixed inherited layer), LIFO discipline of nested with-bodies, jax.config.update writes one cell, values made by patch factories are ordinary objects. JAX jit/pjit caches and user-object mutation are out of reach.",
         "design_ref": "DESIGN.md §4.13",
         "unverified_part": "ExitStack composition in _activate_plugin_worlds/_activate_full_plugin_worlds_for_body (assumed PEP 343), JAX trace/compilation caches, mutation of user model objects, ad.primitive_transposes backfill.",
+    },
+    "C18": {
+        "modules": ALL_MODULES,
+        "level_text": "_run_allclose is executed symbolically from its real source over an abstract numpy model (extended reals with NaN/inf per element, any number of outputs, any sizes): a reported match implies equal output count, equal shapes and, for every element, closeness to the value ONNX Runtime actually returned (exact equality for non-float pairs), by an inductive invariant over the outputs. _temporary_x64 restores the flag on all exits.",
+        "level_note": "Trusted: the numpy model of specs/nparr.py (np.allclose/np.array_equal by their documented element-wise definitions, IEEE rules for NaN/inf, finite arithmetic over the reals), opaque treatment of the ORT session and JAX pytree calls. Complex outputs and outputs_as_nchw re-packing are excluded from the postcondition.",
+        "design_ref": "DESIGN.md §4.18",
+        "unverified_part": "complex outputs (re-packed pairs), outputs_as_nchw/inputs_as_nchw layout handling, _build_ort_inputs feed construction, float rounding inside np.allclose, behaviour of ONNX Runtime itself.",
     },
 }
